@@ -32,7 +32,7 @@ def run(tier):
             (asan, ["chars", "L=4", "from=4", "allmodes=0", "modes=7"]),
             (asan, ["tokens", "L=3", "allmodes=1", "modes=15"]),
             (asan, ["tokens", "L=3", "allmodes=0", "modes=7", "comments=0", "tcomma=1"]),
-            (asan, ["pairs", "allmodes=0", "modes=15"]),
+            (asan, ["pairs", "allmodes=1", "modes=15"]),
         ]
     else:
         stages = [
